@@ -1,5 +1,6 @@
 SPECIFICATION Spec
 CONSTANTS MaxLen = 6
+BitSets <- BitsAll
 Fault = "none"
 INVARIANTS Refines
 CHECK_DEADLOCK FALSE
